@@ -40,7 +40,59 @@ SIM_LIST = ["fast_nonMarkov_SIR", "fast_nonMarkov_SIS", "discrete_SIR", "builder
 
 def plan(tier):
     n = 15000 if tier == "quick" else 400000
-    return [(s, n) for s in SIM_LIST]
+    return [(s, n) for s in SIM_LIST] + [("ode", 2500 if tier == "quick" else 100000)]
+
+
+def run_ode_pair(case, rng):
+    """Same F6 perturbation (labels of another type, node / edge insertion order,
+    edge orientation, initial-set order) applied to the graph handed to an ODE
+    entry point: population curves must agree up to rounding.  This is a
+    differential run under a schedule perturbation; the ODE half of C14 is
+    otherwise outside what this technique decides (DESIGN.md sections 5, 12)."""
+    import warnings
+    import numpy as np
+    from checks import c19
+    G1, L1 = cases.build_graph(case["graph"])
+    c2, perm = relabel(case, rng)
+    G2, L2 = cases.build_graph(c2["graph"])
+    nm = case["entry"]
+    outs = []
+    for G, L, c in ((G1, L1, case), (G2, L2, c2)):
+        kw = c19.ode_graph_kwargs(nm, None, L, c)
+        kw.pop("return_full_data", None)
+        try:
+            with np.errstate(all="ignore"), warnings.catch_warnings(record=True) as wl:
+                warnings.simplefilter("always")
+                val = c19.call_ode_graph(nm, G, c, kw)
+            if any("ODEint" in type(w.message).__name__ or "lsoda" in str(w.message).lower() for w in wl):
+                return [], "integrator-warning"
+        except Exception as e:
+            outs.append(("exc", type(e).__name__))
+            continue
+        try:
+            arrs = [np.asarray(a, dtype=float) for a in (val if isinstance(val, (tuple, list)) else [val])]
+        except Exception:
+            return [], "non-numeric"
+        outs.append(("ok", arrs))
+    full_case = dict(case)
+    full_case["relabelled"] = c2
+    if outs[0][0] == "exc" and outs[1][0] == "exc":
+        return [], "rejected:%s" % outs[0][1]
+    if outs[0][0] != outs[1][0]:
+        return [V("relabel", "%s/outcome-depends-on-labels" % nm, "on G: %r ; on the relabelled copy: %r"
+                  % (outs[0][:2] if outs[0][0] == "exc" else "ok", outs[1][:2] if outs[1][0] == "exc" else "ok"), full_case)], None
+    a, b = outs[0][1], outs[1][1]
+    n = len(L1)
+    if len(a) != len(b) or any(x.shape != y.shape for x, y in zip(a, b)):
+        return [V("relabel", "%s/shape-depends-on-labels" % nm, "output shapes %r vs %r" % ([x.shape for x in a], [y.shape for y in b]), full_case)], None
+    if any(not np.all(np.isfinite(x)) or np.max(np.abs(x)) > 1e3 * n + 1e3 for x in a + b):
+        return [], "non-finite-or-blown-up"
+    for k, (x, y) in enumerate(zip(a, b)):
+        if not np.allclose(x, y, rtol=1e-5, atol=1e-5 * n + 1e-8):
+            d = float(np.max(np.abs(x - y)))
+            return [V("relabel", "%s/curves-depend-on-labels" % nm,
+                      "output %d differs by up to %.6g between G and a relabelled, re-ordered copy (N=%d)" % (k, d, n), full_case)], None
+    return [], None
 
 
 def relabel(case, rng):
@@ -155,6 +207,18 @@ def run_builders(case, rng):
 
 
 def run_one(family, rng, idx, tier):
+    if family == "ode":
+        from checks import c19
+        case = c19.gen_ode_case(rng, c19.GRAPH_ENTRY)
+        case["rl_seed"] = rng.getrandbits(32)
+        case["sim"] = "ode"
+        case["use_sets"] = rng.random() < 0.75
+        v, note = run_ode_pair(case, random.Random(case["rl_seed"]))
+        stats = {"evaluations": 2, "fault_F6_relabel_and_reorder": 1}
+        if note:
+            return {"skipped": "ode %s" % note, "stats": stats}
+        return {"viol": v, "stats": stats,
+                "keys": ["ode|" + hashlib.sha256(repr(case).encode()).hexdigest()[:16]], "sample": case if idx < 1 else None}
     if family == "builders":
         case = simcases.gen_case(rng, "fast_nonMarkov_SIR", nmax=12, buggify=False, allow_rho=False, horizon="inf")
         case["rl_seed"] = rng.getrandbits(32)
@@ -178,6 +242,8 @@ def run_one(family, rng, idx, tier):
 
 def replay(case):
     c = {k: v for k, v in case.items() if k not in ("relabelled", "perm")}
+    if c.get("sim") == "ode":
+        return run_ode_pair(c, random.Random(c["rl_seed"]))[0]
     if c["sim"] == "fast_nonMarkov_SIR" and "rl_seed" in c and case.get("violation_family") == "builders":
         return run_builders(c, random.Random(c["rl_seed"]))[0]
     v = run_pair(c, random.Random(c["rl_seed"]))[0]
